@@ -23,15 +23,27 @@ two goroutines calling `Release` on the same handle concurrently both pass the
 `g.pool == nil` test, and a by-value copy `g2 := *g` released separately puts
 the same scratch twice; a later pair of Garble calls then shares one scratch.
 `C17_contract_needed_concurrent_release` and `C17_contract_needed_value_copy`
-exhibit both on the model.  "Releasing twice is harmless" is therefore proved
-for sequential double release through one handle (`C17_release_idempotent`).
+exhibit both on the model, and `checks/C17.py` replays the second one on the
+real code on every run (informational: 20/20 attempts end with two live handles
+on one scratch and the first overwritten).  So the reading of "releasing twice
+is harmless" as "any two Release calls that reach one garbling" is FALSE for
+the code; what is proved (`C17_release_idempotent`) is the reading the doc
+comment gives: a second `Release` through the same handle, after the first has
+returned, is a no-op.
+
+Link to C01: `C17_garble_equals_C01` instantiates the model with the actual
+write sequence of `Circuit.Garble` and shows that behind every live handle of
+every concurrent run there is `Circuit.garble` of that call's own tape and key
+(the function the C01 theorems are about); with C01,
+`C17_concurrent_garbling_evaluates_correctly`.
 
 What is modelled rather than proved: `atomic.Pointer` and `sync.Pool` are
 linearizable objects (one step per operation) and establish happens-before
 between a `Put` and the `Get` that returns the item; Go-memory-model data races
 are observed only at run time (race detector in `checks/C17.py`).
 -/
-import MpcVerif.Proofs.Pool
+import MpcVerif.Proofs.PoolGarble
+import MpcVerif.Props.C01
 
 namespace Mpc.Pool
 variable {Mem Job : Type}
@@ -236,6 +248,98 @@ example : ∃ σ : State Nat Nat, Reachable traceParams true σ ∧ σ.pc 0 = .i
     ∃ H, σ.handle 0 = some H ∧ H.user = none ∧ H.pool = some 0 := by
   refine ⟨_, .step 0 .publish (.step 0 .write (.step 0 .write (.step 0 .getNew (.step 0 .cas
     (.step 0 .load (.step 0 (.callGarble 5) .init rfl) rfl) rfl) rfl) rfl) rfl) rfl, rfl, _, rfl, rfl, rfl⟩
+
+/-! ### Link to C01: the model instantiated with the real garbling -/
+
+section C01link
+open Mpc LabelAlg
+variable {L : Type} [LabelAlg L]
+
+/-- The garbling seen through a handle: `R`, `g.Wires`, `g.Gates`. -/
+def garbledOf (c : Circuit) (j : GJob L) (m : GMem L) : Garbled L :=
+  { r := j.r, wires := m.wires, rows := (List.range c.gates.length).map m.tables }
+
+/-- **garble_isolated, instantiated.**  Pool model with the actual writes of
+`Circuit.Garble` (input-wire loop, gate loop; `garbleParams c`), well-formed
+circuit: in every reachable state of every concurrent run, behind every live
+handle there is exactly the garbling that `Circuit.garble` (the function the
+C01 theorems are about) computes from that call's own tape and key — on every
+defined wire and for every gate's rows — whatever scratch the call got and
+whatever that scratch held before. -/
+theorem C17_garble_equals_C01 (c : Circuit) (hwf : c.WF = true)
+    (σ : State (GMem L) (GJob L)) (hr : Reachable (garbleParams c) true σ)
+    (h : HandleId) (H : Handle (GMem L) (GJob L)) (x : ScratchId)
+    (hH : σ.handle h = some H) (ho : H.owned = some x) :
+    (∀ w, c.defined w = true →
+        (σ.mem x).wires.get w = (c.garble H.job.H H.job.r H.job.inl).wires.get w) ∧
+    (garbledOf c H.job (σ.mem x)).rows = (c.garble H.job.H H.job.r H.job.inl).rows := by
+  have hmem := (C17_garble_isolated (garbleParams c) σ hr).2.2.1 h H x hH ho
+  have hgood := (good_reachable (garbleParams c) (fun m => m.wires.size = c.numWires)
+    (by simp [garbleParams]) (fun j f hf m hm => garbleProg_size c j f hf m hm) true σ hr).2.2 h H hH
+  obtain ⟨e1, e2⟩ := seqGarble_eq_garble c hwf H.job H.init hgood
+  rw [hmem]
+  refine ⟨e1, ?_⟩
+  have hlen : (c.garble H.job.H H.job.r H.job.inl).rows.length = c.gates.length := by
+    have h' := congrArg List.length
+      (garbleGates_rows_length H.job.H H.job.r c.gates
+        ((Array.range c.numWires).map fun i =>
+          if i < c.nIn then ⟨H.job.inl i, H.job.inl i ^^^ H.job.r⟩ else default) 0)
+    simp only [List.length_map] at h'
+    exact h'
+  apply List.ext_getElem
+  · simp [garbledOf, hlen]
+  · intro k h1 h2
+    simp only [garbledOf, List.getElem_map, List.getElem_range]
+    rw [e2 k (by simpa [garbledOf] using h1)]
+    simp [List.getD, h2]
+
+/-- End to end ("each call returns the same correct result it returns when run
+alone"): evaluating the tables of any live handle of any concurrent run, with
+input labels taken from that handle's wire pairs, takes no error branch and
+yields on every defined wire the label of the plain-evaluation bit. -/
+theorem C17_concurrent_garbling_evaluates_correctly (c : Circuit) (hwf : c.WF = true)
+    (σ : State (GMem L) (GJob L)) (hr : Reachable (garbleParams c) true σ)
+    (h : HandleId) (H : Handle (GMem L) (GJob L)) (x : ScratchId)
+    (hH : σ.handle h = some H) (ho : H.owned = some x) (hsel : sbit H.job.r = true)
+    (inp : List Bool) :
+    ∃ out, c.evalGarbled H.job.H (garbledOf c H.job (σ.mem x)).rows
+        (encodeInputs c (garbledOf c H.job (σ.mem x)) inp) = .ok out ∧
+      ∀ w, c.defined w = true →
+        out.get w = ((σ.mem x).wires.get w).labelFor ((c.plainEval inp).get w) := by
+  obtain ⟨e1, e2⟩ := C17_garble_equals_C01 c hwf σ hr h H x hH ho
+  obtain ⟨out, h1, h2⟩ := C01_garbled_eq_plain H.job.H c H.job.r hsel H.job.inl inp hwf
+  have henc : encodeInputs c (garbledOf c H.job (σ.mem x)) inp =
+      encodeInputs c (c.garble H.job.H H.job.r H.job.inl) inp := by
+    simp only [encodeInputs]
+    apply Array.ext
+    · simp
+    · intro i hi1 hi2
+      simp only [Array.getElem_map, Array.getElem_range]
+      split
+      · rename_i hlt
+        have hd : c.defined i = true := input_defined c i hlt
+        have := e1 i hd
+        simp only [garbledOf] at this ⊢
+        rw [this]
+      · rfl
+  refine ⟨out, ?_, fun w hw => ?_⟩
+  · rw [e2, henc]; exact h1
+  · rw [(h2 w hw).2, e1 w hw]
+
+/-- Non-vacuity of the two link theorems: for the C01 example circuit (every
+gate kind, fan-out, `in0 = in1`; `WF` by `decide` in Props/C01.lean) and any
+job there is a reachable state with a live handle produced by that job. -/
+example (j : GJob L) : ∃ σ : State (GMem L) (GJob L),
+    Reachable (garbleParams exampleCircuit) true σ ∧
+    ∃ H, σ.handle 0 = some H ∧ H.owned = some 0 ∧ H.job = j := by
+  have h : ∃ σ, runSched (garbleParams (L := L) exampleCircuit) true (init (garbleParams exampleCircuit))
+      ([(0, .callGarble j), (0, .load), (0, .cas), (0, .getNew)] ++ List.replicate 8 (0, .write) ++
+        [(0, .publish)]) = some σ ∧ ∃ H, σ.handle 0 = some H ∧ H.owned = some 0 ∧ H.job = j :=
+    ⟨_, rfl, _, rfl, rfl, rfl⟩
+  obtain ⟨σ, hs, hh⟩ := h
+  exact ⟨σ, reachable_runSched _ true _ σ _ .init hs, hh⟩
+
+end C01link
 
 /-! ### The usage-contract limit (see the header) -/
 
